@@ -27,7 +27,7 @@ THEOREMS = [
     'CC.C17_faithful', 'CC.C17_table_total', 'CC.C17_table_wellformed', 'CC.C17_circuit_table_total',
     'CC.C17_toComplex_pure', 'CC.C17_pure', 'CC.C17_idempotent', 'CC.C17_circuit_pure', 'CC.C17_circuit_idempotent',
     'CC.C17_roundtrip', 'CC.C17_roundtrip_codec', 'CC.C17_dictify_converts', 'CC.C17_undictify_scalar_list',
-    'CC.C17_circuit_complex',
+    'CC.C17_circuit_complex', 'CC.C17_no_decorated_loader',
 ]
 OPEN_STATEMENTS = []
 ASSUMPTIONS = [
@@ -774,6 +774,199 @@ def check_undictify_circuit(ctx, out, circ):
         out.spec_fail(dict(op='undictify_circuit', symptom='argument_mutated'), 'undictify_circuit changed its argument', circ)
     return k1, v1
 
+
+# --------------------------------------------------------------------------- file-level stream (every loader / saver pair)
+
+def mutable_ids(x, acc=None, depth=0):
+    """ids of the mutable objects reachable from x (containers, arrays, instances with a __dict__)"""
+    acc = set() if acc is None else acc
+    if depth > 30 or x is None or isinstance(x, (bool, int, float, complex, str, bytes)):
+        return acc
+    if isinstance(x, (list, dict, set, np.ndarray)) or (hasattr(x, '__dict__') and not isinstance(x, type) and not callable(x)):
+        if id(x) in acc:
+            return acc
+        acc.add(id(x))
+    if isinstance(x, dict):
+        for v in x.values(): mutable_ids(v, acc, depth + 1)
+    elif isinstance(x, (list, tuple, set, frozenset)):
+        for v in x: mutable_ids(v, acc, depth + 1)
+    elif hasattr(x, '__dict__') and not isinstance(x, type) and not callable(x) and depth < 6:
+        for v in list(vars(x).values()): mutable_ids(v, acc, depth + 1)
+    return acc
+
+def scramble(x, depth=0, seen=None):
+    """edit every mutable part of a loaded result in place (what a caller is free to do with *its* result)"""
+    seen = set() if seen is None else seen
+    if depth > 30 or id(x) in seen:
+        return
+    seen.add(id(x))
+    if isinstance(x, dict):
+        for v in list(x.values()): scramble(v, depth + 1, seen)
+        x.clear(); x['__edited__'] = True
+    elif isinstance(x, list):
+        for v in list(x): scramble(v, depth + 1, seen)
+        x.clear(); x.append('__edited__')
+    elif isinstance(x, tuple):
+        for v in x: scramble(v, depth + 1, seen)
+    elif hasattr(x, '__dict__') and not isinstance(x, type) and not callable(x) and depth < 6:
+        for v in list(vars(x).values()): scramble(v, depth + 1, seen)
+
+class FilePair:
+    """one public saver / loader pair working on a file: `save(path, obj)`, `load(path)`, how to make two different
+    objects, how to compare what was loaded with what was written"""
+    def __init__(self, name, save, load, make, equal, fmts, scramble_result=scramble):
+        self.name, self.save, self.load, self.make, self.equal, self.fmts, self.scramble = name, save, load, make, equal, fmts, scramble_result
+
+def file_pairs():
+    from pathlib import Path
+    from CircuitCalculator import dump_load as DL
+    from CircuitCalculator.Circuit import dump_load as CDL, components as ccp
+    from CircuitCalculator.Circuit.circuit import Circuit
+    from CircuitCalculator.Network import loaders as L
+    import yaml
+    def tree(rng, i):
+        t = gen_tree(rng, cx=rng.random() < 0.6, cxlike=False, scalars_in_lists=rng.random() < 0.5)
+        t['serial'] = i                                  # two documents written to one path always differ
+        return t
+    def circuit_obj(rng, i):
+        # kinds whose stored value dictionary is what their constructor takes (a Circuit save/load round trip of the
+        # other kinds is the adjacent observation of this module, not claimed here)
+        ids = rng.sample(IDS, 3)
+        return Circuit([ccp.resistor(ids[0], ('1', '0'), float(i + 1)), ccp.conductance(ids[1], ('1', '2'), num(rng, positive=True)),
+                        ccp.ac_voltage_source(ids[2], ('2', '0'), V=num(rng), R=num(rng, positive=True), w=float(rng.randint(0, 9)), phi=0.5)])
+    def circuit_eq(loaded, written):
+        return [(c.type, c.id, list(c.nodes), dict(c.value)) for c in loaded.components] == \
+               [(c.type, c.id, list(c.nodes), dict(c.value)) for c in written.components]
+    def circuit_doc(rng, i):
+        comps = []
+        for j, kind in enumerate(rng.sample(list(INTENDED_C), 3)):
+            c, meaning = gen_component(rng, kind, f'K{j}', ['0', str(j + 1)], rng.choice(['real', 'cart']))
+            comps.append((c, meaning))
+        comps[0][0]['id'] = f'serial{i}'
+        return comps
+    def circuit_doc_eq(loaded, written):
+        if len(loaded.components) != len(written): return False
+        for c, (d, meaning) in zip(loaded.components, written):
+            want = INTENDED_C[d['type']][1](meaning)
+            if not (c.type == d['type'] and c.id == d['id'] and list(c.nodes) == list(d['nodes']) and set(want) == set(c.value)
+                    and all(core.close(c.value[k], want[k], 0.0, 1e-12) for k in want)):
+                return False
+        return True
+    def net_desc(rng, i):
+        d = gen_description(rng, [k for k in INTENDED], n=rng.randint(1, 4))
+        d[0]['id'] = f'serial{i}'
+        return d
+    def net_eq(loaded, written):
+        if len(loaded.branches) != len(written): return False
+        return all(b.node1 == e['N1'] and b.node2 == e['N2'] and b.element.name == e['id'] for b, e in zip(loaded.branches, written))
+    def write_text(path, text):
+        with open(path, 'w') as f:
+            f.write(text)
+    pairs = [
+        FilePair('dump_load.dump/load', lambda p, o: DL.dump(p, o), lambda p: DL.load(p), tree, value_equal, ['json', 'yaml', 'yml']),
+        FilePair('Circuit.dump_load.save/load', lambda p, o: CDL.save(p, o), lambda p: CDL.load(p), circuit_obj, circuit_eq, ['json']),
+        FilePair('dump_load.dump/Circuit.dump_load.load', lambda p, o: DL.dump(p, {'components': [c for c, _ in o]}), lambda p: CDL.load(p),
+                 circuit_doc, circuit_doc_eq, ['json', 'yaml', 'yml']),
+        FilePair('json.dump/load_network_from_json', lambda p, o: write_text(p, json.dumps(o)), lambda p: L.load_network_from_json(p),
+                 net_desc, net_eq, ['json']),
+    ]
+    try:
+        import schemdraw
+        schemdraw.use('svg')
+        import gen_draw as gd
+        from props import c15
+        from CircuitCalculator.SimpleCircuit import dump_load as SDL
+        from CircuitCalculator.SimpleCircuit.DiagramTranslator import circuit_translator
+        def schematic(rng, i):
+            prog = [dict(kind='V', name='V1', vals={'V': float(i + 1)}, rev=False, a=(0, 0), b=(0, 1), place='dir'),
+                    dict(kind='R', name='R1', vals={'R': float(10 + rng.randint(0, 50))}, a=(0, 1), b=(1, 1), place='chain'),
+                    dict(kind='wire', a=(1, 1), b=(1, 0), place='chain'), dict(kind='wire', a=(1, 0), b=(0, 0), place='chain'),
+                    dict(kind='gnd', a=(0, 0))]
+            d, _ = gd.build(prog, dict(gd.IDENT, unit=5.0))
+            return d
+        def schematic_eq(loaded, written):
+            return c15.same_circuit(circuit_translator(written), circuit_translator(loaded)) is None
+        def scramble_schematic(d):
+            for attr in ('elements', '_elm_stack', 'elm_params'):
+                v = getattr(d, attr, None)
+                if isinstance(v, list): v.clear()
+                elif isinstance(v, dict): v.clear()
+        pairs.append(FilePair('SimpleCircuit.dump_load.dump/load', lambda p, o: SDL.dump(p, o), lambda p: SDL.load(p),
+                              schematic, schematic_eq, ['json'], scramble_schematic))
+    except Exception as e:          # noqa: BLE001 — the drawing layer is optional for this stream
+        pairs.append(None)
+    return pairs
+
+def check_file_stream(ctx, out, pair, fmt, path_kind, rng, tmpdir, serial, prop='C17'):
+    """(1) write d1, load, compare; rewrite the SAME path with d2, load: must be d2;  (2) two loads of one path are equal,
+    not the same object, share no mutable part; after every mutable part of the first result is edited a further load
+    still gives what was written;  (3) the same through str and pathlib.Path."""
+    from pathlib import Path
+    out.evaluations += 1
+    out.count(f'file:{pair.name}:{fmt}:{path_kind}')
+    raw = os.path.join(tmpdir, f'f{serial}_{abs(hash(pair.name)) % 1000}.{fmt}')
+    mk = (lambda s: Path(s)) if path_kind == 'Path' else (lambda s: s)
+    other = (lambda s: s) if path_kind == 'Path' else (lambda s: Path(s))
+    facts = dict(op='file_load', pair=pair.name, format=fmt, path=path_kind)
+    d1, d2 = pair.make(rng, 2 * serial), pair.make(rng, 2 * serial + 1)
+    show = lambda d: d if isinstance(d, (dict, list)) and not any(isinstance(x, tuple) for x in (d if isinstance(d, list) else [])) else str(d)[:600]
+    def fail(symptom, what, **extra):
+        out.spec_fail(dict(facts, symptom=symptom), what,
+                      dict(pair=pair.name, format=fmt, path_kind=path_kind, file=os.path.basename(raw), written_first=show(d1), written_second=show(d2),
+                           steps='save(f, first); load(f); save(f, second); load(f); load(f); edit results; load(f); load(other path type)'), **extra)
+    k, v = attempt(pair.save, mk(raw), d1)
+    if k == 'err': return fail('save_raises', f'{pair.name}: saving raises {v}')
+    k, r1 = attempt(pair.load, mk(raw))
+    if k == 'err': return fail('load_raises', f'{pair.name}: loading what was just written raises {r1}')
+    if not pair.equal(r1, d1): return fail('differs', f'{pair.name}: what is loaded is not what was written', impl=str(r1)[:300])
+    # (1) rewrite the same path
+    k, v = attempt(pair.save, mk(raw), d2)
+    if k == 'err': return fail('save_raises', f'{pair.name}: saving raises {v}')
+    k, r2 = attempt(pair.load, mk(raw))
+    if k == 'err': return fail('load_raises', f'{pair.name}: loading raises {r2}')
+    if not pair.equal(r2, d2):
+        stale = pair.equal(r2, d1)
+        return fail('stale_after_rewrite' if stale else 'differs_after_rewrite',
+                    f'{pair.name}: the file was rewritten, a second load of the same path returns ' + ('the OLD content' if stale else 'something else'),
+                    impl=str(r2)[:300])
+    # (2) two loads of one path
+    k, r3 = attempt(pair.load, mk(raw))
+    if k == 'err' or not pair.equal(r3, d2): return fail('repeat_differs', f'{pair.name}: a repeated load differs', impl=str(r3)[:300])
+    if r3 is r2 and mutable_ids(r2): return fail('same_object', f'{pair.name}: two loads of one path return the very same mutable object')
+    if mutable_ids(r2) & mutable_ids(r3): return fail('shared_mutable', f'{pair.name}: two loads of one path share mutable parts')
+    pair.scramble(r2); pair.scramble(r1)
+    k, r4 = attempt(pair.load, mk(raw))
+    if k == 'err' or not pair.equal(r4, d2):
+        return fail('load_affected_by_edit', f'{pair.name}: after the caller edited an earlier result, loading the path no longer gives what was written',
+                    impl=str(r4)[:300])
+    if not pair.equal(r3, d2): return fail('earlier_result_changed', f'{pair.name}: editing one result changed another one')
+    # (3) the other path type names the same file
+    k, r5 = attempt(pair.load, other(raw))
+    if k == 'err' or not pair.equal(r5, d2): return fail('path_type_differs', f'{pair.name}: str and pathlib.Path of one file load differently', impl=str(r5)[:300])
+    k, v = attempt(pair.save, other(raw), d1)
+    k, r6 = attempt(pair.load, mk(raw))
+    if k == 'err' or not pair.equal(r6, d1): return fail('stale_after_rewrite', f'{pair.name}: rewritten through the other path type, the load is stale', impl=str(r6)[:300])
+    out.nontrivial(('file', pair.name, fmt, path_kind))
+
+def run_file_streams(ctx, out, reps, prop='C17'):
+    import shutil
+    rng = ctx.rng('file_stream')
+    tmpdir = tempfile.mkdtemp(prefix=f'{prop.lower()}_files_')
+    try:
+        serial = 0
+        for pair in file_pairs():
+            if pair is None:
+                out.notes.append('SimpleCircuit file stream skipped (drawing layer unavailable)'); continue
+            for fmt in pair.fmts:
+                for path_kind in ('str', 'Path'):
+                    n = reps if not pair.name.startswith('SimpleCircuit') else max(1, reps // 3)
+                    for _ in range(n):
+                        if ctx.time_left() < 10: return
+                        serial += 1
+                        check_file_stream(ctx, out, pair, fmt, path_kind, rng, tmpdir, serial, prop)
+    finally:
+        shutil.rmtree(tmpdir, ignore_errors=True)
+
 # --------------------------------------------------------------------------- corpus (minimal failing inputs of the findings)
 
 CORPUS_NET = [
@@ -936,6 +1129,8 @@ def run(ctx, out):
             check_deserialize(ctx, out, yaml.dump(circ), rng.choice(['yaml', 'yml']), circuit=True)
     for c in ({}, {'components': None}, {'components': []}, None, [], {'components': {}}, {'components': 'ab'}):
         check_undictify_circuit(ctx, out, c)
+    # ---- file level: every saver / loader pair, same path rewritten, repeated loads, str and Path
+    run_file_streams(ctx, out, 2 if ctx.quick else 12)
     # observation (adjacent to the property, not claimed): Circuit.serialize -> Circuit.deserialize
     obs = {}
     from CircuitCalculator.Circuit import components as ccp
@@ -970,6 +1165,8 @@ def replay(ctx, out, rp):
             out.spec_fail(canon, f'component does not load: {v}', inp)
     elif op == 'undictify_circuit':
         check_undictify_circuit(ctx, out, inp)
+    elif op == 'file_load':
+        run_file_streams(ctx, out, 2)
     elif op in ('undictify_complex_values',):
         check_inplace(ctx, out, op, inp, False)
     else:
